@@ -115,6 +115,7 @@ func genSchedule(t *rapid.T, name string, pred map[string]string, names []string
 func genD(t *rapid.T) CaseA {
 	pred := map[string]string{}
 	base, names := genNameGroup(t, "names")
+	cfg := genFixCfg(t, names, pred)
 	none := 0
 	var ops []LOp
 	ops = append(ops, genOps(t, rapid.IntRange(0, 2).Draw(t, "n1"), pred, &none, names)...)
@@ -148,7 +149,7 @@ func genD(t *rapid.T) CaseA {
 		pred[name] = "smb" // whether an HTTP listener survived is not known here: never draw an unplanned 5 s removal
 	}
 	ops = append(ops, genOps(t, rapid.IntRange(0, 2).Draw(t, "n2"), pred, &none, names)...)
-	return CaseA{Base: base, Ops: withScale(t, base, ops)}
+	return CaseA{Base: base, Ops: withScale(t, base, ops), Cfg: cfg}
 }
 
 // classifySchedule: labels and the fingerprint part of a schedule.
